@@ -744,6 +744,15 @@ func generate(tier string, seed uint64, corpus string, add func(kind, doc string
 			add("byte-mid", "["+d+string([]byte{byte(b)})+"]")
 		}
 	}
+	// byte sequences that Unicode (but not JSON) classes as white space, after a value
+	for _, u := range []string{"\u0085", "\u00a0", "\u1680", "\u2000", "\u2028", "\u2029", "\u202f", "\u205f", "\u3000", "\ufeff", "\x85", "\xa0", "\x0c", "\x0b", "\x1c", "\x1f"} {
+		for _, d := range []string{`1`, `{"a":1}`, `[1]`, `"s"`} {
+			add("uni-space", d+u)
+			add("uni-space", d+" "+u+" ")
+			add("uni-space", u+d)
+			add("uni-space", "["+d+u+"]")
+		}
+	}
 	r := rng.New(seed)
 	thorough := tier == "thorough"
 	nValid, nMut := 4000, 9000
